@@ -123,8 +123,9 @@ def thr_form(thr, thr_type, unit):
 class Recorder:
     """Wraps one selector object; records each fit as begin / step* / post|raised."""
 
-    def __init__(self, obj, name, X, y, unit, exact):
+    def __init__(self, obj, name, X, y, unit, exact, fps=False):
         self.obj, self.name, self.X, self.y = obj, name, X, y
+        self.fps = fps
         self.axis = CLASSES[name][1]
         self.unit, self.exact = unit, exact
         self.events = []
@@ -197,7 +198,10 @@ class Recorder:
         if raised is not None:
             self.events.append({"a": "raised", "nts": nts_form(nts)[0], "msg": "%s: %s" % (type(raised).__name__, str(raised)[:120])})
             return False
-        self.events.append({"a": "post", "p": self.project(X, y if with_y else None), "warm": bool(warm)})
+        ev = {"a": "post", "p": self.project(X, y if with_y else None), "warm": bool(warm)}
+        if self.fps:
+            ev.update(fps_tables(self.obj, self.unit))
+        self.events.append(ev)
         return True
 
     def _from_store(self, pos):
